@@ -114,6 +114,27 @@ fn gap_desc(lx: &Lexed, gap: usize) -> String {
     format!("{}..{}", prev, tok_kind(lx, gap))
 }
 
+/// Where a comment sits on its line(s): alone, after code, before code, or between code.
+fn placement(src: &str, c: &lexm::Comment) -> &'static str {
+    let b = src.as_bytes();
+    let mut i = c.start;
+    while i > 0 && b[i - 1] != b'\n' {
+        i -= 1;
+    }
+    let before_blank = b[i..c.start].iter().all(|x| x.is_ascii_whitespace());
+    let mut j = c.end;
+    while j < b.len() && b[j] != b'\n' {
+        j += 1;
+    }
+    let after_blank = b[c.end.min(j)..j].iter().all(|x| x.is_ascii_whitespace());
+    match (before_blank, after_blank) {
+        (true, true) => "own-line",
+        (false, true) => "trailing",
+        (true, false) => "leading",
+        (false, false) => "inline",
+    }
+}
+
 fn show(b: &[u8]) -> String {
     let s = String::from_utf8_lossy(b);
     let s: String = s.chars().take(80).collect();
@@ -122,8 +143,7 @@ fn show(b: &[u8]) -> String {
 
 /// Comments and literals of source and output compared (the harness-side mirror of `fmt_check`;
 /// the verdict that counts is the extracted model's, this one supplies key and detail).
-pub fn mirror_check(src: &str, sl: &Lexed, ol: &Lexed, out: &mut Vec<Failure>) {
-    let _ = src;
+pub fn mirror_check(src: &str, out_text: &str, sl: &Lexed, ol: &Lexed, out: &mut Vec<Failure>) {
     let sc: Vec<&Vec<u8>> = sl.comments.iter().map(|c| &c.text).collect();
     let oc: Vec<&Vec<u8>> = ol.comments.iter().map(|c| &c.text).collect();
     if sc != oc {
@@ -142,7 +162,7 @@ pub fn mirror_check(src: &str, sl: &Lexed, ol: &Lexed, out: &mut Vec<Failure>) {
                     let cat = if extra_known { "fmt-comment-moved" } else { "fmt-comment-added" };
                     out.push(Failure {
                         cat: cat.into(),
-                        key: format!("{}:{}:{}", cat, if ol.comments[i].line { "line" } else { "block" }, gap_desc(ol, ol.comments[i].gap)),
+                        key: format!("{}:{}:{}:{}", cat, if ol.comments[i].line { "line" } else { "block" }, placement(out_text, &ol.comments[i]), gap_desc(ol, ol.comments[i].gap)),
                         what: format!("formatted text has comment {} where the source has {} (comment #{})", show(oc[i]), show(sc[i]), i),
                         detail: format!("source comments {}, output comments {}", sc.len(), oc.len()),
                     });
@@ -150,7 +170,7 @@ pub fn mirror_check(src: &str, sl: &Lexed, ol: &Lexed, out: &mut Vec<Failure>) {
                 _ => {
                     out.push(Failure {
                         cat: "fmt-comment-lost".into(),
-                        key: format!("fmt-comment-lost:{}:{}", if c.line { "line" } else { "block" }, gap_desc(sl, c.gap)),
+                        key: format!("fmt-comment-lost:{}:{}:{}", if c.line { "line" } else { "block" }, placement(src, c), gap_desc(sl, c.gap)),
                         what: format!(
                             "comment {} (#{} of the source, between tokens {}) is missing from the formatted text{}",
                             show(&c.text),
@@ -166,7 +186,7 @@ pub fn mirror_check(src: &str, sl: &Lexed, ol: &Lexed, out: &mut Vec<Failure>) {
             let c = &ol.comments[i];
             out.push(Failure {
                 cat: "fmt-comment-added".into(),
-                key: format!("fmt-comment-added:{}:{}", if c.line { "line" } else { "block" }, gap_desc(ol, c.gap)),
+                key: format!("fmt-comment-added:{}:{}:{}", if c.line { "line" } else { "block" }, placement(out_text, c), gap_desc(ol, c.gap)),
                 what: format!("formatted text has an extra comment {} (#{}), between tokens {} of the output", show(&c.text), i, gap_desc(ol, c.gap)),
                 detail: format!("source comments {}, output comments {}", sc.len(), oc.len()),
             });
@@ -383,7 +403,7 @@ pub fn evaluate(vm: &RootedThread, name: &str, src: &str) -> Eval {
     }
     // (2) comments and literals (mirror of fmt_check on the real token stream)
     match (&sl, lexm::lex_real(&out)) {
-        (Some(sl), Ok(ol)) => mirror_check(src, sl, &ol, &mut failures),
+        (Some(sl), Ok(ol)) => mirror_check(src, &out, sl, &ol, &mut failures),
         (None, _) => failures.push(Failure {
             cat: "machinery".into(),
             key: "machinery:source-tokens".into(),
